@@ -1,6 +1,7 @@
 import SdcModel.MdibDescr
 import SdcModel.Proofs.MdibMono
 import SdcModel.Proofs.MdibHist
+import SdcModel.Generated.HandOuts
 /-! # C03 — transactions are atomic (property theorems over the provider model)
 A transaction that does not commit (application raised, API call rejected, consistency check failed) returns exactly the
 tables it started from and an empty result; a commit over well-formed tables cannot die half-way. -/
@@ -104,5 +105,17 @@ theorem transaction_all_or_nothing (t : Tables) (sc : Script) (hw : WF t) (hk : 
   · apply runScript_unchanged
     revert hn hf
     cases (runScript t sc).2.2 <;> simp
+
+/-- Isolation, tie to the source: for every hand-out route of the real provider MDIB (transaction getters of all kinds,
+    entity getters, transaction results, the object kept by the application after a commit) and one object of every state /
+    descriptor class of the bundled MDIBs, the handed-out object shares NO mutable object (found with `is` at any nesting
+    depth) with the object stored in the MDIB. The table is regenerated from the running code on every run. -/
+theorem generated_handouts_private : ∀ h ∈ Generated.handOuts, h.2.2 = 0 := by decide +kernel
+
+/-- the table is not empty: all routes were observed -/
+theorem generated_handouts_cover_routes :
+    ["get_state", "get_descriptor", "descriptor_tx.get_state", "entities.by_handle.state", "entities.by_handle.descriptor",
+     "result_vs_table", "result_vs_handed_out", "handed_out_vs_table_after_commit", "get_context_state_after_commit",
+     "context_result_vs_table"].all (fun r => Generated.handOuts.any (fun h => h.1 == r)) = true := by decide +kernel
 
 end Sdc.C03
